@@ -414,14 +414,31 @@ def rule_comment(check):
     check.rule(R, "the superseded original sourceMappingURL comment is removed from the comment map (never from the text) before printing, recognised by the same predicate that extract_source_map uses")
     prog = check.prog
     t = prog.fn("rewriter::transform_js")
-    rm = [n for n in hir.calls_in(t.body, name="remove_source_map_comments")]
-    pr = [n for n in hir.walk(t.body) if hir.is_call(n) and hir.callee_name(n) == "print" and "Compiler" in n["callee"]["path"]]
-    ex = [n for n in hir.calls_in(t.body, name="extract_source_map")]
+    # the three events, wherever transform_js or a helper it is split into performs them; the position of an
+    # event is (node in transform_js[, node in the helper called there])
+    def events(pred):
+        out = []
+        for n in hir.walk(t.body):
+            if not hir.is_call(n):
+                continue
+            if pred(n):
+                out.append(((n["id"],), t, n, []))
+                continue
+            h = prog.resolve_local(n)
+            if h is not None and h is not t and h.body is not None and not h.rec.get("gen") and h.name not in ("extract_source_map", "remove_source_map_comments"):
+                for y in hir.walk(h.body):
+                    if hir.is_call(y) and pred(y):
+                        out.append(((n["id"], y["id"]), h, y, [a for a in gate.atoms_at(t, n) if a[0] not in ("variant",)]))
+        return out
+
+    rm = events(lambda n: hir.callee_name(n) == "remove_source_map_comments")
+    pr = events(lambda n: hir.callee_name(n) == "print" and "Compiler" in (n.get("callee") or {}).get("path", ""))
+    ex = events(lambda n: hir.callee_name(n) == "extract_source_map")
     check.floor(R, "comment removal sites", len(rm), 1)
-    for n in rm:
-        before = bool(pr) and all(n["id"] < p["id"] for p in pr) and bool(ex) and all(e["id"] < n["id"] for e in ex)
-        atoms = gate.atoms_at(t, n)
-        gated = any(a[0] == "call" and a[1] == "is_some" and a[4] is True and (a[3] or "").endswith(".source_map_comment") for a in atoms) or not [a for a in atoms if a[0] not in ("variant",)]
+    for pos, g_, n, outer in rm:
+        before = bool(pr) and all(pos < p[0] for p in pr) and bool(ex) and all(e_[0] < pos for e_ in ex)
+        atoms = gate.atoms_at(g_, n)
+        gated = (any(a[0] == "call" and a[1] == "is_some" and a[4] is True and (a[3] or "").endswith(".source_map_comment") for a in atoms) or not [a for a in atoms if a[0] not in ("variant",)]) and not outer
         check.expect(before and gated, R, R + "/before-print", hir.loc(n), "removed after extraction and before printing", "comment removal is not placed between extract_source_map and print")
     r = prog.fn("rewriter::remove_source_map_comments")
     e = prog.fn("rewriter::extract_source_map")
@@ -524,8 +541,13 @@ def rule_resolve(check):
         check.expect(bool(same), R, R + "/absolute-as-is", hir.loc(n), "absolute URL used as is", "an absolute map URL is altered")
     reads = [(g, n) for g, n in prog.flat_calls(e, name="read") if "FileReader" in ((n.get("callee") or {}).get("path", "") + (n.get("callee") or {}).get("trait", ""))]
     check.expect(len(reads) == 1 and hir.local_of(hir.call_args(reads[0][1])[1]) is not None, R, R + "/read-final-path", hir.loc(e.rec), "the resolved path is read through the FileReader", "the map file is not read through the FileReader from the resolved path")
-    regs = [hir.pat_variant(a["pat"]) for g in prog.flat(e) for m in hir.walk(g.body) if m.get("k") == "Match" for a in m["arms"]]
-    ok = any(isinstance(v, str) and v.endswith("DecodedMap::Regular") for v in regs)
+    # every pattern a decoded map is taken apart with (match arms, if-let / let-else, nested in Ok(..) / Some(..))
+    pats_ = [a["pat"] for g in prog.flat(e) for m in hir.walk(g.body) if m.get("k") == "Match" for a in m["arms"]]
+    pats_ += [m["pat"] for g in prog.flat(e) for m in hir.walk(g.body) if m.get("k") == "LetCond" and "pat" in m]
+    pats_ += [st["pat"] for g in prog.flat(e) for b_ in hir.walk(g.body) if b_.get("k") == "Block" for st in b_.get("stmts", []) if st.get("k") == "Let" and "els" in st]
+    regs = [hir.pat_variant(q) for p_ in pats_ for q in hir.walk_pat(p_)]
+    regs = [x for v in regs for x in (v if isinstance(v, tuple) else (v,))]
+    ok = any(isinstance(v, str) and v.endswith("DecodedMap::Regular") for v in regs) and not any(isinstance(v, str) and "DecodedMap::" in v and not v.endswith("DecodedMap::Regular") for v in regs)
     check.expect(ok, R, R + "/regular-only", hir.loc(e.rec), "only DecodedMap::Regular is used", "non-regular decoded maps are used")
     url = [n for n in hir.calls_in(e.body, name="get")]
     check.ok(R, R + "/url", hir.loc(e.rec), "url = text after the marker (C13 G8 shows the slice is in range)")
